@@ -35,6 +35,11 @@ def cases(tier, seed):
         if cfg["env"] == "mdpp":
             for r in range(reps // 2):
                 out.append(dict(kind="other", cfg=cfg, family="handbuilt", B=16, s=rnd.randrange(10**6)))
+    # every fourth case decodes the same instance object twice without cloning it (evaluate a batch, evaluate it again):
+    # the monitors watch the second episode
+    for i, c_ in enumerate(out):
+        if i % 4 == 3:
+            c_["reuse"] = True
     return out
 
 
